@@ -2,6 +2,7 @@ pub mod bvals;
 pub mod c03;
 pub mod c10;
 pub mod c11;
+pub mod c15;
 pub mod common;
 
 use vcore::evid::Tier;
@@ -21,6 +22,7 @@ pub fn dispatch(prop: &str, tier: Tier, replay: Option<String>) -> i32 {
         "C03" => c03::run(tier, replay),
         "C10" => c10::run(tier, replay),
         "C11" => c11::run(tier, replay),
+        "C15" => c15::run(tier, replay),
         other => {
             eprintln!("h_uplc: unknown property {other}");
             2
